@@ -264,6 +264,16 @@ def gen(rng, idx, tier):
                                               "TransformationsFilter"], rng.randint(1, 2))
             if "TTF" in case["func"] and rng.random() < 0.5:
                 opts["convertCubics"] = False
+        if rng.random() < 0.3:
+            # the masters' own libs list non-exported glyphs, not all the same names (the
+            # master-list entry point takes the union; the designspace ones ignore them)
+            names_ = [g["name"] for g in case["ds"]["ufos"][0]["glyphs"] if g["name"] != ".notdef"]
+            full = [u for u in case["ds"]["ufos"] if u.get("glyphs")]
+            if len(names_) >= 3 and len(full) >= 2:
+                pick = rng.sample(names_, 2)
+                full[0].setdefault("lib", {})["public.skipExportGlyphs"] = [pick[0]]
+                full[-1].setdefault("lib", {})["public.skipExportGlyphs"] = [pick[0], pick[1]]
+                case["master_lib_skip_lists"] = True
         case["history"] = rng.choice(["once", "once", "twice"])
         case["opts"] = opts
         # <source> elements built in memory need not have (unique) names
@@ -410,6 +420,8 @@ def _run(case, bump, counters, tmp):
     elif "ds" in case:
         doc, fonts = build_designspace(case["ds"], lib)
         bump("family_runs")
+        if case.get("master_lib_skip_lists"):
+            bump("family_runs_with_differing_skip_lists_in_master_libs")
         sn = case.get("source_names", "given")
         if sn != "given":
             for i, sd in enumerate(doc.sources):
